@@ -512,3 +512,39 @@ Example c12_nonvacuous_source_program :
   calls (psh s') = [0; 2; 1] /\ req (psh s') = 2 /\ proc (psh s') = 2 /\
   src_program = canon.
 Proof. vm_compute. repeat split. Qed.
+
+(* ---- the executors of rounds 1-4 driving the program of the source (C12/ProgExec.v) ---- *)
+From RM Require Import C12.WakeModel C12.JoinModel C12.ProgExec.
+From Coq Require Import Permutation.
+
+(* a wake-driven executor (polls only tasks whose waker fired, whichever it picks) finishes every task of the program
+   within 2 * work + ntasks polls and never finds nobody woken; the interpreter's final state is the executor's *)
+Theorem c12_source_wake_driven_finishes : forall (pc : pconfig) (fuel : nat) (picks : list nat),
+  2 * work (cfg pc) + length (ptasks pc) < fuel ->
+  exists w sched, wexec (cfg pc) fuel picks (winit (cfg pc)) [] = (w, sched, WDone) /\
+                  pall_done pc (prun src_program pc sched) = true /\
+                  psim false (prun src_program pc sched) (base w).
+Proof. exact src_wake_driven_finishes. Qed.
+Print Assumptions c12_source_wake_driven_finishes.
+
+Theorem c12_source_no_lost_wakeup : forall (pc : pconfig) (sched : list task),
+  pall_done pc (prun src_program pc sched) = false -> runnable (cfg pc) (wrun (cfg pc) sched) <> [].
+Proof. exact src_no_lost_wakeup. Qed.
+Print Assumptions c12_source_no_lost_wakeup.
+
+(* join_all (shared waker, children re-polled spuriously): at most [work] parent polls *)
+Theorem c12_source_join_all : forall (pc : pconfig) (fuel : nat),
+  work (cfg pc) <= fuel ->
+  exists w r, jexec (cfg pc) fuel (winit (cfg pc)) 0 = (w, r, WDone) /\ r <= work (cfg pc) /\
+              pall_done pc (prun src_program pc (round_robin (cfg pc) r)) = true.
+Proof. exact src_join_all. Qed.
+Print Assumptions c12_source_join_all.
+
+(* per-task results, the set of supplier calls and the remembered values do not depend on the schedule *)
+Theorem c12_source_schedule_independent : forall (pc : pconfig) (s1 s2 : list task),
+  pall_done pc (prun src_program pc s1) = true -> pall_done pc (prun src_program pc s2) = true ->
+  (forall t, results (psh (prun src_program pc s1)) t = results (psh (prun src_program pc s2)) t) /\
+  Permutation (calls (psh (prun src_program pc s1))) (calls (psh (prun src_program pc s2))) /\
+  (forall k, value (psh (prun src_program pc s1)) k = value (psh (prun src_program pc s2)) k).
+Proof. exact src_schedule_independent. Qed.
+Print Assumptions c12_source_schedule_independent.
